@@ -12,10 +12,24 @@ from ..common import Corr, py_call
 from .c11 import dec_array, signature
 
 RULE = ('retained_bond_indices on exact spectra (ties, zeros, cumulative weight equal to tol) and split_matrix_svd on random block-sparse matrices '
-        'm,n<=6 (thorough <=9), dtypes int/float/complex, charge patterns as C11, tol in {0,1/8,1/4,1/2,3/4,...}; '
+        'm,n<=6 (thorough <=9), dtypes int/float/complex, charge patterns as C11, tol in {0,1/8,1/4,1/2,3/4,...}, plus explicit all-zero '
+        'matrices with shared charges (9 shapes x 3 dtypes x tol 0, 1/4, 15/16); '
         'distinct = (shape, dtype, charge pattern class, tol, #kept, #produced)')
 
 TOLS = [0, 0, 0.25, 0.5, 0.75, 0.125, 0.0625, 0.375, 0.9375, 0.0009765625]
+# regression corpus (finding fixed in /repo 204675d): all-zero matrices whose charge lists DO intersect; before the repair the
+# block loop discarded every singular value and returned an intermediate dimension 0 (then a charge list of length 0 for an
+# axis of size 1 downstream); now the dummy bond of dimension 1, as for disjoint charges.  (q0, q1) per shape.
+ZERO_SHARED = [([0], [0]), ([1, 0], [0, 1, 0]), ([0, 0], [0, 0]), ([0, 1, 1], [1]), ([-1, 0, 1], [1, 0, -1, 0]),
+               ([2, 0, 0, 1], [0, 3]), ([0, 1, 0, 1, 2], [2, 1, 1, 0, 0, 0]), ([1, 1, 1], [1, 1, 1, 1, 1, 1]), ([5, 0], [0])]
+ZERO_TOLS = [0.0, 0.25, 0.9375]
+
+
+def zero_shared_cases():
+    for q0, q1 in ZERO_SHARED:
+        for dt in (np.int64, float, complex):
+            for tol in ZERO_TOLS:
+                yield np.zeros((len(q0), len(q1)), dtype=dt), np.array(q0), np.array(q1), tol
 SPECTRA = [[1, 1, 1, 1], [3, 4], [4, 3], [2, 1, 2], [1, 2, 2, 4], [4, 2, 2, 1], [0, 0, 0], [0, 2, 0], [1, 0, 0, 0], [2, 2, 1], [1], [0],
            [4, 4, 2], [1, 1, 1, 0], [2, 0, 0, 0], [6, 8, 0], [1, 1, 1, 1, 2, 2, 2, 2, 4, 4, 4, 4, 0, 0, 0, 0, 8]]
 
@@ -73,7 +87,7 @@ def check_rbi_exact(s, tol, rec):
 def _shard(name, shard, nshards, tier, seed):
     c = Corr(name)
     rng = np.random.default_rng([seed, shard, 12])
-    ops, impls, sigs = [], [], []
+    ops, impls, sigs, zero = [], [], [], []
     if name == 'bond_ops.retained_bond_indices':
         n = (800 if tier == 'quick' else 40000) // nshards + 1
         for k in range(n):
@@ -100,8 +114,11 @@ def _shard(name, shard, nshards, tier, seed):
         n = (1200 if tier == 'quick' else 60000) // nshards + 1
         cases = list(gen_cases(rng, n, 6 if tier == 'quick' else 9, big=(tier == 'thorough'))) if name == 'bond_ops.split_matrix_svd' \
             else list(gen_malformed(rng, (150 if tier == 'quick' else 1500) // nshards + 1))
-        for A, q0, q1 in cases:
-            tol = float(rng.choice(TOLS))
+        if name == 'bond_ops.split_matrix_svd' and shard == 0:
+            cases += list(zero_shared_cases())      # explicit tolerance, appended last: the random stream is unchanged
+        for cs in cases:
+            A, q0, q1 = cs[:3]
+            tol = cs[3] if len(cs) > 3 else float(rng.choice(TOLS))
             try:
                 r, rec = impl_svd(A, q0, q1, tol)
                 if rec.inexact:
@@ -120,14 +137,17 @@ def _shard(name, shard, nshards, tier, seed):
             except exact.Inexact:
                 c.skipped += 1
                 continue
-            ops.append(op); impls.append(r)
+            ops.append(op); impls.append(r); zero.append(not np.any(A))
             sigs.append(signature(A, q0, q1) + (tol, len(r.get('s', [])), len(svals)))
     replies = common.drive(ops)
-    for op, im, mo, sg in zip(ops, impls, replies, sigs):
+    zero += [False] * (len(ops) - len(zero))
+    for op, im, mo, sg, zr in zip(ops, impls, replies, sigs, zero):
         mo = dict(mo); mo['input_unchanged'] = True
         br = []
         if op['op'] == 'bond.svd':
             br = ['disjoint' if sg[3] else 'shared', 'kept<produced' if im.get('ok') and sg[-2] < sg[-1] else 'kept=produced']
+            if zr and not sg[3]:
+                br.append('zero matrix, shared charges')
         else:
             br = ['none kept' if not im.get('idx') else ('all kept' if len(im['idx']) == len(op['s']) else 'truncated')]
         if not im['ok']:
